@@ -1,6 +1,6 @@
 (* DrvRdfa.v — rdfa <xlocation> <tree tokens> -> triples joined by ";" | !doc   (tree tokens as in DrvRdfXml.v)
               mdata <xlocation> <tree tokens> -> triples of the Microdata model *)
-From RK Require Import Base Proto RdfXml DrvRdfXml Rdfa.
+From RK Require Import Base Proto RdfXml DrvRdfXml Rdfa Microdata.
 
 Definition run_rdfa (args : list bytes) : bytes :=
   match args with
@@ -11,6 +11,16 @@ Definition run_rdfa (args : list bytes) : bytes :=
           | Some ts => join [59%N] (map triple_out ts)
           | None => s2b "!doc"
           end
+      | _, _ => ERR
+      end
+  | _ => ERR
+  end.
+
+Definition run_mdata (args : list bytes) : bytes :=
+  match args with
+  | [b; tree] =>
+      match xstr b, parse_node (S (length tree)) (split_on 44 tree) with
+      | Some base, Some (root, []) => join [59%N] (map triple_out (microdata_doc base root))
       | _, _ => ERR
       end
   | _ => ERR
